@@ -180,9 +180,17 @@ def run(ctx):
                        '(codepage, kind, input, box, substitutes, preserved set, chunking); non-trivial = all except round trips '
                        'of lead/trail pairs the codepage does not define')
     # 1. design: unbounded step law on the large class alphabet, bounded history model with every chunking
-    ctx.model_check('Codepage_MC', cfg='Codepage_MC_step.cfg', workers=4, require_actions=False)
-    ctx.model_check('Codepage_MC', cfg=ctx.pick('Codepage_MC.cfg', 'Codepage_MC_big.cfg'), workers=ctx.pick(4, 8),
-                    require_actions=False)
+    # (ctx.tlc, not ctx.model_check: TLC's -coverage option makes the recursive converter operators ~100x slower)
+    if not os.environ.get('VERIF_C41_SKIP_MC'):       # development aid for mutant runs: the models do not depend on the code
+        for cfg, workers in (('Codepage_MC_step.cfg', 4), (ctx.pick('Codepage_MC.cfg', 'Codepage_MC_big.cfg'), ctx.pick(4, 8))):
+            r = ctx.tlc('Codepage_MC', cfg, workers=workers, tag='model check')
+            ctx.cov['states'] += r['distinct']
+            ctx.cov['transitions'] += r['generated']
+            if not r['ok']:
+                ctx.reject('TLC model check of Codepage_MC (%s) failed: %s' % (cfg, r['error']),
+                           key={'clause': 'model_check', 'cfg': cfg}, data=r['out'][-4000:])
+            elif r['distinct'] < 1000:
+                raise core.MachineryError('vacuous model check %s: %d states' % (cfg, r['distinct']))
     # 2. the shipped codepages (relation read from the data files) and the synthetic class codepages
     from pcbasic.data import read_codepage
     from pcbasic.data.codepages import CODEPAGES
